@@ -20,7 +20,7 @@ pub static DEF: PropDef = PropDef {
     id: "C10",
     level: "exploration",
     engine: "query",
-    rule: "one run = one real QueryNode over 3..6 chunks in distinct eras (so that different time windows select different chunk sets) and 2..4 concurrent query tasks (projections, aggregates, GROUP BY; windows covering one era, several eras, or none), each task issuing 1..3 queries; scheduling points: every object-store request of the node (catalog and chunk reads) and the pause point between per-query table registration and statement planning; each concurrent answer must equal the same SQL evaluated on a MemTable of all rows; distinct = distinct grant sequence; non-trivial = completed AND two queries with different chunk sets were in flight together",
+    rule: "one run = one real QueryNode over 3..6 chunks in distinct eras (so that different time windows select different chunk sets) and 2..4 concurrent query tasks (projections, aggregates, GROUP BY; windows covering one era, several eras, or none), each task issuing 1..3 queries (half of them with a label predicate; label values that differ only in letter case or white space exist, and a third of such statements are the twin of another one that differs only inside the literal; tasks query on behalf of two tenants); scheduling points: every object-store request of the node (catalog and chunk reads) and the pause point between per-query table registration and statement planning; each concurrent answer must equal the same SQL evaluated on a MemTable of all rows; distinct = distinct grant sequence; non-trivial = completed AND two queries with different chunk sets were in flight together",
     quick_runs: 1500,
     thorough_runs: 15_000,
     run_cap_ms: 120_000,
@@ -30,6 +30,19 @@ pub static DEF: PropDef = PropDef {
     stub: &["S3 = InMemory behind SimStore", "multi-thread runtime replaced by seeded interleaving at await points (store requests + one named pause point)"],
     assumptions: &["the logical race (re-binding between another query's binding and its planning) is reproduced through the pause point; hardware-level races inside DataFusion are out of reach", "single-partition plans"],
 };
+
+/// The same statement with the string literal replaced by its look-alike.
+fn twin_of(q: &str) -> String {
+    for (a, b) in [("'a'", "'A'"), ("'cpu'", "'CPU'"), ("'x y'", "'x  y'")] {
+        if q.contains(a) {
+            return q.replace(a, b);
+        }
+        if q.contains(b) {
+            return q.replace(b, a);
+        }
+    }
+    q.to_string()
+}
 
 fn scen(_spec: RunSpec) -> ScenFut {
     Box::pin(async move {
@@ -50,12 +63,15 @@ fn scen(_spec: RunSpec) -> ScenFut {
         let n_chunks = sim::w_range(3, 6) as i64;
         let pw = ParquetWriter::new();
         let mut gen = RowGen::new();
+        // label values that differ only in letter case or in the amount of white space are different series
+        gen.metrics = vec!["cpu".into(), "CPU".into(), "mem".into()];
+        gen.hosts = vec![None, Some("a".into()), Some("A".into()), Some("x y".into()), Some("x  y".into())];
         let mut all_rows: Vec<Row> = Vec::new();
         let mut eras: Vec<i64> = Vec::new();
         for c in 0..n_chunks {
             let era = now - (c + 1) * 5 * HOUR;
             eras.push(era);
-            let rows: Vec<Row> = (0..sim::w_range(2, 5)).map(|i| gen.row(era + i as i64 * SEC, false)).collect();
+            let rows: Vec<Row> = (0..sim::w_range(2, 8)).map(|i| gen.row(era + i as i64 * SEC, false)).collect();
             let bytes = pw.write_batch(&batch(1, &rows)).unwrap();
             let path = format!("default/data/c10/chunk_{c}.parquet");
             inner.put(&Path::from(path.clone()), PutPayload::from(bytes.clone())).await.unwrap();
@@ -86,6 +102,7 @@ fn scen(_spec: RunSpec) -> ScenFut {
         let n_tasks = sim::w_range(2, 4);
         let mut plans: Vec<Vec<String>> = Vec::new();
         let mut windows_used: std::collections::BTreeSet<(i64, i64)> = Default::default();
+        let mut twins: Vec<String> = Vec::new();
         for _ in 0..n_tasks {
             let k = sim::w_range(1, 3);
             let mut qs = Vec::new();
@@ -104,7 +121,27 @@ fn scen(_spec: RunSpec) -> ScenFut {
                 };
                 let tail = if sel.starts_with("metric_name") { " GROUP BY metric_name" } else { "" };
                 let prefix = if sim::w(4) == 3 { "STREAM " } else { "" };
-                qs.push(format!("{prefix}SELECT {sel} FROM metrics WHERE timestamp >= {lo} AND timestamp <= {hi}{tail}"));
+                // half of the statements also have a label predicate; a third of those are the twin of an earlier
+                // statement (of any task) that differs from it only inside the string literal - in letter case or
+                // in the amount of white space: another predicate over another series, whatever a text-based
+                // notion of "the same statement" may think
+                let label = match sim::w(2) {
+                    0 => String::new(),
+                    _ => format!(
+                        " AND {}",
+                        ["host = 'a'", "host = 'A'", "metric_name = 'cpu'", "metric_name = 'CPU'", "host = 'x y'", "host = 'x  y'", "metric_name <> 'cpu'", "metric_name <> 'CPU'"][sim::w(8) as usize]
+                    ),
+                };
+                let mut q = format!("{prefix}SELECT {sel} FROM metrics WHERE timestamp >= {lo} AND timestamp <= {hi}{label}{tail}");
+                if !twins.is_empty() && sim::w(3) == 2 {
+                    let t: &String = &twins[sim::w(twins.len() as u32) as usize];
+                    q = twin_of(t);
+                    sim::probe("statement-differing-from-another-only-inside-a-literal");
+                }
+                if q.contains("'") {
+                    twins.push(q.clone());
+                }
+                qs.push(q);
             }
             plans.push(qs);
         }
@@ -167,7 +204,7 @@ fn scen(_spec: RunSpec) -> ScenFut {
                             Err(e) => Err(e),
                         }
                     } else {
-                        qn.query(&sql).await
+                        qn.query_for_tenant(&sql, ["default", "default", "tenant-b"][ti % 3]).await
                     };
                     inflight.fetch_sub(1, std::sync::atomic::Ordering::SeqCst);
                     let sql = sql.trim_start_matches("STREAM ").to_string();
